@@ -121,6 +121,9 @@ def run(ctx):
                       "answer True iff same type, same size/key set and pairwise-equal elements (a false 'equal' suppresses the invalidation of every expression reading that input)", floor=2)
     ctx.rule("R09.h", "watch delivery: reactive_ops._watch registers its callback with bind(<cb>, self._reactive, watch=True); inside the callback every path on which a function was given "
                       "hands the value to it (directly or through the async executor), and the callback reads no state of the shared .rx namespace object", floor=3)
+    ctx.rule("R09.i", "rx cache model: rx._resolve, the rx._obj property, _invalidate_current and _invalidate_obj interpreted abstractly on a three-node expression (root, op1, op2) under every "
+                      "history of up to 3 (thorough: 4) steps of read leaf / read middle node / set the input to A, B or a bad value / set an operation argument to P, Q or a bad value, followed by a read: the read gives op2(op1(current input, current argument)), "
+                      "raises for the bad input, and recovers", floor=1)
     ctx.not_decided += ["that .rx.value equals the plain-Python result after arbitrary read/update histories (cache coherence) -- not statically decidable here and NOT claimed",
                         "the .rx helper namespace (pipe, where, and_, ...); the values rx.watch delivers (only the callback structure is decided, R09.h)"]
     from checks.shared import comparator_model
@@ -302,3 +305,7 @@ def run(ctx):
     raises_stored = isinstance(first, ast.If) and norm(first.test) == "self._error_state" and any(isinstance(x, ast.Raise) for x in first.body)
     (ctx.ok if ok and raises_stored else ctx.fail)("R09.f", rs, rs.node, "_resolve re-raises a stored error first and stores a new one before re-raising" if ok and raises_stored else
                                                    "_resolve does not store the evaluation error before re-raising / does not re-raise a stored error first")
+
+    # model-level rule, run last
+    from checks import rx_model
+    rx_model.report(ctx, "R09.i")
